@@ -186,7 +186,7 @@ PROPERTY_META = {
  "C14": dict(level="proof",
    text="The C02/C03/C07/C08/C04 postconditions instantiated per width: fixed <-> generic posit conversions, generic <-> generic (other exponent size), "
         "to_f32/to_f64, integer <-> generic posit, Q32E2 -> PxE2<N> (all 2^512 states) and PxE2<N> -> Q32E2; one Kani obligation per (es, N[, M], function). "
-        "Quick: N in {3, 8} plus two widths rotated in by VERIF_SEED; thorough: every N (pairs: M in {2,5,8,16,32}).",
+        "Quick: N in {3, 8, 32} plus two widths rotated in by VERIF_SEED; thorough: every N (pairs: M in {2,5,8,16,32}).",
    note=_KANI_NOTE + " from_f32/from_f64 of the generic types loop on f64 values (out of the verifier's reach): bounded native evaluation only (known finding D18)."
         " Known findings D16 (integer -> generic) and D18 (float -> generic, bounded evaluation) are listed at whole-obligation granularity.",
    assumptions=["PxE1/PxE2::from_f32/from_f64 are not verified (float loops)", "generic->generic pairs are checked for source widths M in {2,5,8,16,32} only"]),
